@@ -52,6 +52,8 @@ type VC struct {
 	instN     int
 	atomicField map[string]*atomicFieldRef
 	pure      int
+	qf        bool
+	rawPrelude string // when set, the obligation is rendered over this prelude only (table lemmas)
 	lastFilter *filterWitness
 }
 
@@ -614,6 +616,9 @@ func (vc *VC) havoc(s *State, key string) *Term {
 
 // render produces the SMT-LIB text of one obligation.
 func (vc *VC) render(o *Obligation, logic string) string {
+	if vc.rawPrelude != "" {
+		return "; obligation " + o.Name + "\n" + vc.rawPrelude + "(assert (not " + o.goal.String() + "))\n(check-sat)\n"
+	}
 	var b strings.Builder
 	b.WriteString("; obligation " + o.Name + "\n")
 	b.WriteString("(set-option :produce-models true)\n")
@@ -627,6 +632,9 @@ func (vc *VC) render(o *Obligation, logic string) string {
 		b.WriteString(d + "\n")
 	}
 	for _, a := range vc.axioms {
+		if vc.qf && strings.Contains(a, "(forall ") {
+			continue
+		}
 		b.WriteString(a + "\n")
 	}
 	for _, l := range vc.lines[:o.prefix] {
